@@ -90,10 +90,20 @@ func (fr *frame) externalModel(name string, cc *ssa.CallCommon, args []T, st *St
 		}
 		c.havocAll(st)
 		return []T{c.fresh("json_err", "Iface")}, true
+	case "reflect.TypeOf":
+		// documented: TypeOf(nil interface) is nil, otherwise the dynamic type
+		c.R.UFun("reflTypeOf", "(declare-fun reflTypeOf (Int) Iface)\n(declare-fun reflTagOf (Iface) Int)\n(assert (forall ((t Int)) (! (and (not ((_ is inil) (reflTypeOf t))) (= (reflTagOf (reflTypeOf t)) t)) :pattern ((reflTypeOf t)))))")
+		return []T{Ite(IsNilIface(args[0]), NilIface, app("Iface", "reflTypeOf", ITyp(args[0])))}, true
 	case "encoding/json.Marshal":
 		b := c.fresh("json_bytes", "Slice")
 		c.assumeValid(st, b, types.NewSlice(types.Typ[types.Byte]))
 		return []T{b, c.fresh("json_err", "Iface")}, true
+	}
+	if name == "reflect.Type.Comparable" {
+		c.R.UFun("reflTypeOf", "(declare-fun reflTypeOf (Int) Iface)\n(declare-fun reflTagOf (Iface) Int)\n(assert (forall ((t Int)) (! (and (not ((_ is inil) (reflTypeOf t))) (= (reflTagOf (reflTypeOf t)) t)) :pattern ((reflTypeOf t)))))")
+		c.R.UFun("hashableT", "(declare-fun hashableT (Int) Bool)")
+		c.useHashable = true
+		return []T{app("Bool", "hashableT", app("Int", "reflTagOf", args[0]))}, true
 	}
 	if cc.IsInvoke() && cc.Method.Name() == "Error" && cc.Signature().Params().Len() == 0 {
 		return []T{c.fresh("errstr", "Str")}, true
